@@ -209,14 +209,22 @@ class Unit:
         if len(ms) != count:
             raise ExtractError('unit %s: anchor %r in %s matched %d times, expected %d' % (self.name, anchor, fnref, len(ms), count))
         m = ms[nth]
-        return bo + m.start(), bo + m.end()
+        return bo + m.start(), bo + m.end(), m
 
-    def after(self, fnref, anchor, text, nth=0, count=1):
-        a, b = self._anchor(fnref, anchor, nth, count)
+    def after(self, fnref, anchor, text, nth=0, count=1, expand=False):
+        """Insert text after the anchored statement.  With expand=True, \\g<n> in text is
+        replaced by the anchor's capture groups, so that a proof hint can mention constants of
+        the code (masks, thresholds) without fixing them: a changed constant then fails the
+        hint's obligation instead of losing the anchor."""
+        a, b, m = self._anchor(fnref, anchor, nth, count)
+        if expand:
+            text = m.expand(text)
         self.text = self.text[:b] + '\n' + text + '\n' + self.text[b:]
 
-    def before(self, fnref, anchor, text, nth=0, count=1):
-        a, b = self._anchor(fnref, anchor, nth, count)
+    def before(self, fnref, anchor, text, nth=0, count=1, expand=False):
+        a, b, m = self._anchor(fnref, anchor, nth, count)
+        if expand:
+            text = m.expand(text)
         # go to line start
         ls = self.text.rfind('\n', 0, a) + 1
         self.text = self.text[:ls] + text + '\n' + self.text[ls:]
